@@ -645,4 +645,28 @@ theorem decodeTextList_encodeTextIndentList (o : Opts) (k : Nat) (ds : List DMRS
   rw [lexText_encodeTextIndentList o k ds hl]
   exact decodeList_encDmrsToks o ds h
 
+/-! ### re-encoding the decoded graph: same token lines -/
+
+theorem encNodeToks_view (o : Opts) (n : Node) : encNodeToks o (viewNodeS o n) = encNodeToks o n := by
+  obtain ⟨op, ol⟩ := o
+  cases op <;> cases ol <;> cases hty : n.type <;>
+    simp [encNodeToks, viewNodeS, typeToks, dropU, hty, lnkToks] <;>
+    (split <;> simp_all)
+
+theorem attrToks_view (o : Opts) (d : DMRS) : attrToks o (viewS o d) = attrToks o d := by
+  have hun : Lnk.unspec.truthy = false := rfl
+  obtain ⟨op, ol⟩ := o
+  cases ol <;> cases htr : d.lnk.truthy <;> simp [attrToks, viewS, htr, hun]
+
+theorem tokLines_view (o : Opts) (k : Nat) (d : DMRS) : tokLines o k (viewS o d) = tokLines o k d := by
+  unfold tokLines
+  rw [attrToks_view]
+  have h1 : (viewS o d).nodes.map (fun n => (k, encNodeToks o n)) = d.nodes.map (fun n => (k, encNodeToks o n)) := by
+    simp only [viewS, List.map_map]
+    apply List.map_congr_left
+    intro n _
+    simp [Function.comp, encNodeToks_view]
+  rw [h1]
+  rfl
+
 end Verif.C02
